@@ -21,6 +21,7 @@ RULE = ("one case = (type-level chain, order of the decays mapping, stable set, 
 ANCHORS = ["decaylanguage.decay.decay:DecayChain.flatten"]
 WORKERS = {"quick": 4, "thorough": 16}
 WATCHDOG = {"quick": 600, "thorough": 3000}
+WTESTS = {"groups": ['flatten'], "tests": ['tests/decay']}
 REQUIRED = {
     "subdecays>=4": 20, "mult3-of-decaying": 20, "reoccur-two-depths": 20, "mother-last": 20, "stable-nonempty": 20,
     "stable-as-set": 5, "stable-as-tuple": 5, "visible_bf": 20,
@@ -67,7 +68,7 @@ def check_case(ctx, case, workload="enum"):
     ctx.mon("C12.direct")
     leaves, bf = chains.ref_leaves(types, m, set(S))
     top = fl.decays[m]
-    if Counter({k: v for k, v in dict(top.daughters).items() if v}) != leaves or not math.isclose(top.bf, bf, rel_tol=1e-9):
+    if Counter({k: v for k, v in dict(top.daughters).items() if v}) != leaves or not math.isclose(top.bf, bf, rel_tol=1e-9, abs_tol=1e-290):
         ctx.violate("flatten:direct", f"flatten gave {dict(top.daughters)} bf={top.bf}, expected {dict(leaves)} bf={bf}", wit)
     if top.metadata.get("note") != META["note"] or top.metadata.get("model") != "PHSP" or top.metadata.get("flag") is not True \
             or top.metadata.get("model_params") != META["model_params"]:
@@ -93,7 +94,7 @@ def check_case(ctx, case, workload="enum"):
             ctx.violate(v["mechanism"], v["message"], wit)
         if ok:
             ctx.hit("visible_bf")
-            if not math.isclose(vb, bf, rel_tol=1e-9):
+            if not math.isclose(vb, bf, rel_tol=1e-9, abs_tol=1e-290):
                 ctx.violate("visible_bf", f"visible_bf {vb} != product {bf}", wit)
     ctx.sample({"chain": case["chain"], "order": case.get("order"), "stable": S, "flattened_fs": dict(leaves), "bf": bf})
 
